@@ -67,15 +67,101 @@ def render(sel):
 
 
 def bounds(tier):
-    return {"base_programs": len(base_programs(tier)), "pool": len(POOL), "comments": 1 if tier == "quick" else 2, "routes": ["settings"]}
+    return {"base_programs": len(base_programs(tier)), "pool": len(POOL), "comments": 1, "routes": ["settings (all events)", "command line --disable, per-module override, top-level config (all single codes, %d programs)" % len(route_programs(tier))]}
 
 
 CH = 6
 
 
+def route_programs(tier):
+    ps = [s for s in base_programs(tier) if s[0] == 0 and len(s) == 2]
+    ps += [s for s in base_programs(tier) if s[0] == 0 and len(s) == 3][: (12 if tier == "quick" else 60)]
+    return ps
+
+
 def units(tier):
     n = len(base_programs(tier))
-    return [(tier, i, min(n, i + CH)) for i in range(0, n, CH)]
+    nr = len(route_programs(tier))
+    return [("settings", tier, i, min(n, i + CH)) for i in range(0, n, CH)] + [("routes", tier, i, min(nr, i + 3)) for i in range(0, nr, 3)]
+
+
+def _cli(args, cwd):
+    """run the real command line in a subprocess; returns sorted (code, line, col) from --json-output"""
+    import json
+    import os
+    import subprocess
+    import sys
+    out = os.path.join(cwd, "out.json")
+    if os.path.exists(out):
+        os.remove(out)
+    env = dict(os.environ, PYTHONPATH=os.environ.get("VERIF_REPO", "/repo"))
+    p = subprocess.run([sys.executable, "-m", "pyanalyze", "--json-output", out] + args, cwd=cwd, env=env, stdout=subprocess.PIPE, stderr=subprocess.PIPE, text=True, timeout=300)
+    if not os.path.exists(out):
+        if p.returncode == 0:
+            return [], ""          # no failures: nothing is written
+        return None, p.stderr[-400:]
+    with open(out) as f:
+        data = json.load(f)
+    return sorted((e["code"], e.get("lineno"), e.get("col_offset")) for e in data), ""
+
+
+_ROUTE_N = [0]
+
+
+def _routes(res, tier, lo, hi, only_event=None):
+    import os
+    import shutil
+    import tempfile
+    for k, sel in enumerate(route_programs(tier)[lo:hi]):
+        order = 10 ** 7 + lo + k
+        lines = render(sel)
+        if any(MARK in l for l in lines):
+            continue
+        src = "\n".join(lines) + "\n"
+        _ROUTE_N[0] += 1
+        d = tempfile.mkdtemp(prefix="verif-c11r-", dir="/dev/shm")
+        try:
+            pkg = "vpkg%d_%d_%d" % (os.getpid(), lo, _ROUTE_N[0])      # unique dotted name: the importer caches modules by name
+            os.mkdir(os.path.join(d, pkg))
+            open(os.path.join(d, pkg, "__init__.py"), "w").close()
+            fn = os.path.join(d, pkg, "mod.py")
+            with open(fn, "w") as f:
+                f.write(src)
+            with open(os.path.join(d, "base.toml"), "w") as f:
+                f.write('[tool.pyanalyze]\nimport_paths = ["%s"]\n' % d)
+            base, err = _cli(["--config-file", os.path.join(d, "base.toml"), fn], d)
+            res.transitions += 1
+            case0 = {"sel": list(sel), "order": order}
+            if base is None:
+                res.violation({"kind": "cli-produced-no-output"}, dict(case0, event=["route", "baseline"]), "python -m pyanalyze wrote no JSON output for\n%s\n%s" % (src, err))
+                continue
+            res.states += 1
+            for c in sorted({b[0] for b in base}):
+                exp = [b for b in base if b[0] != c]
+                for route in ("cli", "override", "top-level"):
+                    ev = ["route", route, c]
+                    if only_event is not None and only_event != ev:
+                        continue
+                    if route == "cli":
+                        got, err = _cli(["--config-file", os.path.join(d, "base.toml"), "--disable", c, fn], d)
+                    else:
+                        cfg = os.path.join(d, "r.toml")
+                        with open(cfg, "w") as f:
+                            if route == "override":
+                                f.write('[tool.pyanalyze]\nimport_paths = ["%s"]\n[[tool.pyanalyze.overrides]]\nmodule = "%s.mod"\n%s = false\n' % (d, pkg, c))
+                            else:
+                                f.write('[tool.pyanalyze]\nimport_paths = ["%s"]\n%s = false\n' % (d, c))
+                        got, err = _cli(["--config-file", cfg, fn], d)
+                    res.states += 1
+                    res.transitions += 1
+                    res.validated += 1
+                    res.outcomes["route-%s:%s" % (route, "projection" if got == exp else "differs")] += 1
+                    if got != exp:
+                        res.violation({"kind": "disable-not-projection", "route": route, "in_string": "0", "lost": ",".join(sorted({g[0] for g in exp if got is None or g not in got})),
+                                       "extra": ",".join(sorted({g[0] for g in (got or []) if g not in exp}))}, dict(case0, event=ev),
+                                      "disabling %s through the %s route on\n%s\nexpected %s\ngot %s %s" % (c, route, src, exp, got, err))
+        finally:
+            shutil.rmtree(d, ignore_errors=True)
 
 
 def _check(src, settings=None, key="default"):
@@ -242,8 +328,11 @@ def _run_base(res, tier, sel, order0, only_event=None):
 
 
 def run_unit(unit):
-    tier, lo, hi = unit
+    kind, tier, lo, hi = unit
     res = UnitResult()
+    if kind == "routes":
+        _routes(res, tier, lo, hi)
+        return res
     for i, sel in enumerate(base_programs(tier)[lo:hi]):
         _run_base(res, tier, sel, lo + i)
     return res
@@ -251,6 +340,14 @@ def run_unit(unit):
 
 def replay(case):
     res = UnitResult()
+    if case.get("event") and case["event"][0] == "route":
+        for tier in ("quick", "thorough"):
+            rp = route_programs(tier)
+            if tuple(case["sel"]) in rp:
+                i = rp.index(tuple(case["sel"]))
+                _routes(res, tier, i, i + 1, only_event=case["event"] if case["event"][1] != "baseline" else None)
+                break
+        return list(res.viol.values())
     _run_base(res, "quick", tuple(case["sel"]), case.get("order", 0), only_event=case.get("event"))
     return list(res.viol.values())
 
@@ -258,6 +355,6 @@ def replay(case):
 META = {
     "text": "For every base program and every event (disable any subset of occurring codes; insert an ignore comment at any line, trailing or own-line, bare / each occurring code / "
             "another code, with unused_ignore+bare_ignore off and on) the real visitor's failures are compared with the projection of the unmodified program's failures.",
-    "note": "Differential: the reference is the real D(P) itself plus a 20-line projection model. Only the settings route is explored (config-file and CLI routes: see DESIGN.md).",
+    "note": "Differential: the reference is the real D(P) itself plus a 20-line projection model. Comment placements are explored through the settings route; disabling is also explored through the real command line, a per-module override and a top-level config entry (subprocesses).",
     "technique": "explicit-state exploration of (program, suppression event) pairs against the real visitor, oracle = projection reference model",
 }
